@@ -12,6 +12,7 @@ import Robsd.Model.Clean
 import Robsd.Model.Orch
 import Robsd.Model.Flock
 import Robsd.Model.Arena
+import Robsd.Model.RegressHtml
 /-
   robsd_model: the executable models behind a line protocol.
   One request per line: `<component> <op> <args…>`; byte strings are hex
@@ -196,8 +197,30 @@ def arenaRun (p : Arena.Params) (ops : List Arena.Op) : String :=
   let (outs, s) := go (Arena.init p) ops []
   ";".intercalate outs ++ " ran=" ++ ",".intercalate (s.ran.map toString)
 
+def rhtmlInv (t : String) : Option RegressHtml.Invocation :=
+  match t.splitOn ":" with
+  | arch :: date :: time :: dur :: recs :: [] =>
+    let rs := (if recs == "-" then [] else recs.splitOn ";").filterMap fun r =>
+      match r.splitOn "," with
+      | su :: ex :: ln :: lg :: [] => some ⟨hexArg su, ex.toInt?.getD 0, hexArg ln, hexArg lg⟩
+      | _ => none
+    some ⟨hexArg arch, hexArg date, time.toInt?.getD 0, dur.toInt?.getD 0, rs⟩
+  | _ => none
+
+def rhtmlRun (order : List Nat) (invs : List RegressHtml.Invocation) : String :=
+  let p := RegressHtml.parseAll invs
+  let valid := RegressHtml.validOrder p.cols order
+  let cols := ";".intercalate (p.cols.map fun c => s!"{c.id},{c.total},{c.fail}")
+  let rows := ";".intercalate ((RegressHtml.sortSuites p.suites).map fun su =>
+    toHex su.name ++ ":" ++ "|".intercalate ((RegressHtml.row su order).map fun c =>
+      match c with
+      | none => "-"
+      | some (st, link) => (String.fromUTF8! (ByteArray.mk st.name.toArray)) ++ "," ++ toHex link))
+  s!"valid={if valid then 1 else 0} cols={cols} rows={rows}"
+
 def handle (ws : List String) : String :=
   match ws with
+  | "rhtml" :: order :: invs => rhtmlRun (natList order) (invs.filterMap rhtmlInv)
   | "arena" :: hdr :: fsz :: pz :: csz :: ops :: [] =>
     let n := fun (x : String) => x.toNat?.getD 0
     let p : Arena.Params := ⟨n hdr, n fsz, n pz, n csz⟩
